@@ -54,6 +54,10 @@ chk("C12", "fault_enumeration",
     "exhaustive enumeration of CONNECT reply statuses and of every cut / I/O error / corruption / segmentation of the reply head against a scripted proxy, decided on the transport's ordered write/read log; TLS lab for the inside of the tunnel", "E2+E5",
     "Every reply status 100..599 x origin/port/credential/request variants; for seven statuses every EOF offset, I/O error at every offset, byte substitutions/deletions at every offset, every <=2-cut segmentation; refusal bodies up to endless. Oracle: nothing but the CONNECT head is written before a complete 2xx head was served, secrets never in clear, ConnectError carries status and <= 10 KiB. In the TLS lab the proxy terminates the inner TLS: origin-name verification, no proxy credentials inside, caller headers inside.",
     "Trusted: httparse reading of CONNECT/reply heads, the harness ClientHello SNI parser, native-tls acceptors.")
+chk("C13", "model_checking",
+    "stateless exploration of the real threads under a controlled scheduler (gates at the library's schedule points, hook H2), iterative deviation bounding; plus a free-running phase sweep with the real clock", "E4",
+    "Part A: every schedule with <= 2 (quick) / 3 (thorough) deviations of caller thread x timeout thread x peer (send segment, close) x deadline over a real loopback socket, per scenario (framing x caller script incl. reads after end-of-body and zero-length reads x deadline kind x peer behaviour); oracle on every caller-visible result: a timeout only after the deadline, end-of-body only for a complete body, never after the timeout thread cut the stream, nothing lingers after drop, no deadlock. Part B: 33 stall phases (silent / dripping / read-timeout-only / upload / CONNECT / slow redirect chain) must fail within T + 2 s.",
+    "Trusted: the enabledness model of the two blocking calls (socket read, channel wait) in harness/src/c13.rs - a mismatch is detected (threads that move when the model says none can) and reported as a machinery error; real time is not virtualised (margins in evidence assumptions).")
 chk("C14", "exploration",
     "exhaustive enumeration of the full certificate x name x flags x root x route x scope x host x backend matrix as real TLS handshakes against local listeners", "E5",
     "Every cell of the matrix the property names is one real exchange against the local TLS lab (native-tls acceptors, committed test PKI, resolver hook for names), for both TLS backends (two builds); the only-if direction is enforced on every cell, the converse as non-vacuity half.",
@@ -100,12 +104,13 @@ m = {
         "guard": "cargo feature verif-hooks (attohttpc)",
         "enable": "the harness crate /verif/harness depends on attohttpc by path (/repo) with features = [\"verif-hooks\", ...]; ./check rebuilds it from /repo's working tree on every run",
         "baseline_off_cmd": "cd /repo && cargo nextest run --workspace --no-fail-fast --offline",
-        "source_commits": ["5e13d00", "8a1a9bd"],
+        "source_commits": ["5e13d00", "8a1a9bd", "b1ce45f"],
         "add_only": True,
     },
     "engines": [
         {"name": "E1", "path": "/verif/harness/src/e1.rs", "serves_properties": ["C01", "C02", "C19"], "kind_free_text": "explicit-state search over (scripted transport x real Response), states re-reached by replay, keyed by Debug of the reader stack"},
         {"name": "E2", "path": "/verif/harness/src/", "serves_properties": ["C03", "C04", "C05", "C06", "C07", "C08", "C11", "C12", "C15", "C18"], "kind_free_text": "bounded exhaustive input/configuration enumerators over the real code through the scripted transport (C05 in worker subprocesses)"},
+        {"name": "E4", "path": "/verif/harness/src/gates.rs", "serves_properties": ["C13"], "kind_free_text": "gate scheduler: library threads park at schedule points (hook H2) until the explorer releases them; DFS over move sequences with deviation bounding; every violating schedule replayed before it is reported"},
         {"name": "E5", "path": "/verif/harness/src/tlslab.rs", "serves_properties": ["C08", "C12", "C14"], "kind_free_text": "local TLS lab: real loopback listeners (TLS origin, http/https proxy terminating the inner TLS), committed test PKI, second build against rustls"},
         {"name": "E3", "path": "/verif/harness/src/redir.rs", "serves_properties": ["C09", "C10", "C16"], "kind_free_text": "BFS over scripted redirect worlds with a reference model"},
     ],
